@@ -535,4 +535,179 @@ theorem buildFrame_super (ev : Node → M Val) (fr : FuncRec) (params : List (Op
       have := frame_finish ev st.scopes.size fr.declScope _ sl params args _ s3 st' hav hev hi2 hb h2'.symm
       exact ⟨rfl, this⟩
 
+/-! ### the contents of a finished frame (parameter lists without defaults) -/
+
+/-- storage after a sequence of `storage[k] = v` -/
+def applyBindings (vars : List (String × Val)) (l : List (String × Val)) : List (String × Val) :=
+  l.foldl (fun vs kv => updVars vs kv.1 kv.2) vars
+
+/-- what the parameters of a list without defaults bind: position `j` of the argument list, null when missing -/
+def paramBindings : List (Option Node) → Nat → List Val → List (String × Val)
+  | [], _, _ => []
+  | none :: _, _, _ => []
+  | some p :: ps, i, args =>
+    (if p.name == "identifier" then
+      match p.tok with
+      | some t => [(bytesToString t.val, args.getD i Val.null)]
+      | none => []
+     else []) ++ paramBindings ps (i + 1) args
+
+def contextBindings (fr : FuncRec) : List (String × Val) :=
+  (match fr.this with | some t => [(bytesToString thisName, t)] | none => []) ++
+  (match fr.super with | some s => [(bytesToString superName, s)] | none => [])
+
+theorem withVar_vars (s : St) (n : Nat) (v : String) (x : Val) (hn : n < s.scopes.size) :
+    ((s.withVar n v x).scope n).vars = updVars (s.scope n).vars v x := by
+  rw [withVar_scope_same s n v x hn]
+
+theorem bindParamNodes_vars (ev : Node → M Val) (n : Nat) (args : List Val) :
+    ∀ (ps : List (Option Node)) (i : Nat) (s s' : St), NoPreset ps →
+    (∀ p nm, some p ∈ ps → nodeParamName p = some nm → PlainName nm) → FrameBase n s →
+    runM (bindParamNodes ev n ps i args) s = (.ok (), s') →
+    FrameBase n s' ∧ (s'.scope n).vars = applyBindings (s.scope n).vars (paramBindings ps i args) ∧
+    ∀ t, t ≠ n → s'.scope t = s.scope t := by
+  intro ps
+  induction ps with
+  | nil =>
+    intro i s s' _ _ hb h
+    simp only [bindParamNodes, runM_pure] at h
+    injection h with _ h2; subst h2
+    exact ⟨hb, rfl, fun _ _ => rfl⟩
+  | cons o rest ih =>
+    intro i s s' hnp hpl hb h
+    cases o with
+    | none => simp [bindParamNodes, runM_throw] at h
+    | some p =>
+      simp only [bindParamNodes] at h
+      rw [runM_bind] at h
+      have hpre : (p.name == "preset") = false := hnp p (by simp)
+      -- one parameter
+      have hone : ∃ s1, runM (bindParamNode ev n p i args) s = (.ok (), s1) ∧ FrameBase n s1 ∧
+          (s1.scope n).vars = applyBindings (s.scope n).vars
+            (if p.name == "identifier" then match p.tok with
+              | some t => [(bytesToString t.val, args.getD i Val.null)] | none => [] else []) ∧
+          ∀ t, t ≠ n → s1.scope t = s.scope t := by
+        cases hs : runM (bindParamNode ev n p i args) s with
+        | mk r1 s1 =>
+          rw [hs] at h
+          cases r1 with
+          | error e => simp at h
+          | ok u =>
+            refine ⟨s1, rfl, ?_⟩
+            unfold bindParamNode at hs
+            by_cases hid : (p.name == "identifier") = true
+            · simp only [hid, if_true] at hs ⊢
+              rw [runM_bind, runM_tokOf] at hs
+              cases htk : p.tok with
+              | none => simp [htk] at hs
+              | some tk =>
+                simp only [htk] at hs ⊢
+                have hplain := hpl p tk.val (by simp) (by simp [nodeParamName, hid, htk])
+                rw [setValue_parentless n tk.val tk.val _ s hplain hb.2] at hs
+                injection hs with _ h2; subst h2
+                exact ⟨frameBase_withVar n s _ _ hb, by rw [withVar_vars s n _ _ hb.1]; rfl,
+                  fun t ht => withVar_scope_other s n t _ _ ht⟩
+            · simp only [hid, Bool.false_eq_true, if_false, hpre, runM_pure] at hs ⊢
+              injection hs with _ h2; subst h2
+              exact ⟨hb, rfl, fun _ _ => rfl⟩
+      obtain ⟨s1, hs1, hb1, hv1, ho1⟩ := hone
+      rw [hs1] at h
+      simp only at h
+      obtain ⟨hb2, hv2, ho2⟩ := ih (i + 1) s1 s' (fun q hq => hnp q (by simp [hq])) (fun q nm hq => hpl q nm (by simp [hq])) hb1 h
+      refine ⟨hb2, ?_, fun t ht => by rw [ho2 t ht, ho1 t ht]⟩
+      rw [hv2, hv1]
+      simp only [paramBindings, applyBindings, List.foldl_append]
+
+theorem bindContext_vars (n : Nat) (name : List Nat) (o : Option Val) (s : St) (hp : PlainName name) (hb : FrameBase n s) :
+    ∃ s1, runM (bindContext n name o) s = (.ok (), s1) ∧ FrameBase n s1 ∧
+      (s1.scope n).vars = applyBindings (s.scope n).vars (match o with | some t => [(bytesToString name, t)] | none => []) ∧
+      ∀ t, t ≠ n → s1.scope t = s.scope t := by
+  cases o with
+  | none => exact ⟨s, rfl, hb, rfl, fun _ _ => rfl⟩
+  | some v =>
+    refine ⟨_, setValue_parentless n name name v s hp hb.2, frameBase_withVar n s _ _ hb, ?_, fun t ht => withVar_scope_other s n t _ _ ht⟩
+    rw [withVar_vars s n _ _ hb.1]; rfl
+
+/-- The finished frame of a call whose parameter list has no defaults holds EXACTLY: `this`, `super` (if bound), then
+    every parameter with the argument at its position (null when missing) — later parameters of the same name
+    overwrite earlier ones — and it is linked to the declaration scope; no other scope changed. -/
+theorem buildFrame_contents (ev : Node → M Val) (fr : FuncRec) (params : List (Option Node)) (args : List Val) (st st' : St)
+    (fvs : Nat) (hnp : NoPreset params) (hpl : ∀ p nm, some p ∈ params → nodeParamName p = some nm → PlainName nm)
+    (h : runM (buildFrame ev fr params args) st = (.ok fvs, st')) :
+    fvs = st.scopes.size ∧
+    (st'.scope fvs).vars = applyBindings [] (contextBindings fr ++ paramBindings params 0 args) ∧
+    (st'.scope fvs).parent = some fr.declScope ∧ ∀ t, t < st.scopes.size → st'.scope t = st.scope t := by
+  unfold buildFrame at h
+  rw [runM_bind, newScope_run] at h
+  simp only at h
+  have hb0 : FrameBase st.scopes.size
+      { st with scopes := st.scopes.push { name := s!"func: {fr.name}", parent := none, children := [], vars := [] } } :=
+    ⟨by simp, by simp [St.scope]⟩
+  rw [runM_bind] at h
+  obtain ⟨s1, hs1, hb1, hv1, ho1⟩ := bindContext_vars st.scopes.size thisName fr.this _ plain_this hb0
+  rw [hs1] at h
+  simp only at h
+  rw [runM_bind] at h
+  obtain ⟨s2, hs2, hb2, hv2, ho2⟩ := bindContext_vars st.scopes.size superName fr.super s1 plain_super hb1
+  rw [hs2] at h
+  simp only at h
+  rw [runM_bind] at h
+  cases hb : runM (bindParamNodes ev st.scopes.size params 0 args) s2 with
+  | mk rb s3 =>
+    rw [hb] at h
+    cases rb with
+    | error e => simp at h
+    | ok u =>
+      obtain ⟨hb3, hv3, ho3⟩ := bindParamNodes_vars ev st.scopes.size args params 0 s2 s3 hnp hpl hb2 hb
+      simp only at h
+      rw [runM_bind, getScope_run] at h
+      simp only at h
+      rw [runM_bind, setScope_run] at h
+      simp only [runM_pure] at h
+      injection h with h1' h2'
+      injection h1' with h1'
+      subst h1'
+      have hsame : st'.scope st.scopes.size = { s3.scope st.scopes.size with parent := some fr.declScope } := by
+        rw [← h2']; simp [St.scope, hb3.1]
+      refine ⟨rfl, ?_, by rw [hsame], ?_⟩
+      · rw [hsame]
+        simp only
+        rw [hv3, hv2, hv1]
+        have h0 : (({ st with scopes := st.scopes.push { name := s!"func: {fr.name}", parent := none, children := [], vars := [] } } : St).scope
+            st.scopes.size).vars = [] := by simp [St.scope]
+        rw [h0]
+        simp only [applyBindings, contextBindings, List.foldl_append]
+      · intro t ht
+        have htn : t ≠ st.scopes.size := Nat.ne_of_lt ht
+        rw [← h2']
+        simp only [St.scope, Array.getD_eq_getD_getElem?]
+        rw [Array.getElem?_setIfInBounds_ne (Ne.symm htn)]
+        have := (ho3 t htn).trans ((ho2 t htn).trans (ho1 t htn))
+        simp only [St.scope, Array.getD_eq_getD_getElem?] at this
+        rw [this]
+        simp [Array.getElem?_push, htn, ht]
+
+theorem applyBindings_keeps (nm : String) : ∀ (l : List (String × Val)) (u : List (String × Val)),
+    (∀ kv ∈ l, kv.1 ≠ nm) →
+    ((applyBindings u l).find? (·.1 == nm)).map (·.2) = (u.find? (·.1 == nm)).map (·.2) := by
+  intro l
+  induction l with
+  | nil => intro u _; rfl
+  | cons kv rest ih =>
+    intro u h
+    have hne : kv.1 ≠ nm := h kv (by simp)
+    simp only [applyBindings, List.foldl_cons]
+    have := ih (updVars u kv.1 kv.2) (fun kv' h' => h kv' (by simp [h']))
+    simp only [applyBindings] at this
+    rw [this, updVars_find_other u kv.1 nm kv.2 (by simpa using hne)]
+
+/-- a name bound after which no later binding touches it reads that value -/
+theorem applyBindings_find (vars : List (String × Val)) (pre post : List (String × Val)) (nm : String) (v : Val)
+    (hpost : ∀ kv ∈ post, kv.1 ≠ nm) :
+    ((applyBindings vars (pre ++ [(nm, v)] ++ post)).find? (·.1 == nm)).map (·.2) = some v := by
+  have e : applyBindings vars (pre ++ [(nm, v)] ++ post) = applyBindings (updVars (applyBindings vars pre) nm v) post := by
+    simp only [applyBindings, List.foldl_append, List.foldl_cons, List.foldl_nil]
+  rw [e, applyBindings_keeps nm post _ hpost, updVars_find]
+  rfl
+
 end Ecal.Ev
